@@ -145,3 +145,38 @@ int main(){ arr_real x0(%d); for(int i=0;i<x0.size();++i) x0[i]=i+1; const arr_r
   catch(const std::exception& e) { std::printf("materialising the slice threw: %%s\\n", e.what()); return 1; }
   return 0; }
 ''' % (n, i1, i2, st, nc, i1, st)
+
+
+@adapter(r'^rms\(')
+def rms_replay(o):
+    m = o['model'] or {}
+    vals = [frac(e[0]) for e in (m.get('arr._vec[]') or [])] or ['3.0', '4.0']
+    return HDR + '''
+int main(){ arr_real x = {%s}; double s=0; for(int i=0;i<x.size();++i) s+=x[i]*x[i];
+  double want = std::sqrt(s / x.size()); double got = rms(x);
+  if(!(std::fabs(got-want) <= 1e-12*(1+std::fabs(want)))){ std::printf("rms=%%g expected sqrt(mean(x^2))=%%g\\n",got,want); return 1; } return 0; }
+''' % ','.join(vals)
+
+
+@adapter(r'^angle\(cmplx\)')
+def angle_replay(o):
+    m = o['model'] or {}
+    return HDR + '''
+int main(){ cmplx_t v{%s, %s}; double want = std::atan2(v.im, v.re); double got = angle(v);
+  if(!(std::fabs(got-want) <= 1e-12)){ std::printf("angle=%%g expected principal argument %%g\\n",got,want); return 1; } return 0; }
+''' % (frac(m.get('v.re', '-1')), frac(m.get('v.im', '0')))
+
+
+@adapter(r'^arange\(int,int,int\)')
+def arange_replay(o):
+    m = o['model'] or {}
+    a, b, s = I(m, 'start'), I(m, 'stop'), I(m, 'step', 1)
+    want = list(range(a, b, s))
+    if len(want) > 10000:
+        return None
+    return HDR + '''
+int main(){ std::vector<double> want = {%s};
+  try { arr_real r = arange(%d, %d, %d); if(r.size()!=(int)want.size()){ std::printf("count %%d expected %%zu\\n", r.size(), want.size()); return 1; }
+        for(int k=0;k<r.size();++k) if(r[k]!=want[k]) return 1; }
+  catch(const std::exception& e){ std::printf("threw: %%s\\n", e.what()); return 1; } return 0; }
+''' % (','.join(str(v) for v in want), a, b, s)
